@@ -41,9 +41,8 @@ def int64Of (x : Int) : Int :=
 
 /-- Ident with the hex/decimal decision abstracted: the theorems quantify over `useHex`. -/
 def identIntWith (useHex : Bool) (w : Nat) (x : Int) : R Bytes :=
-  if w == 1 then
-    (let v := int64Of x
-     if v == 0 then .ok pfxFalse else if v == 1 then .ok pfxTrue else .panic)
+  if w == 1 && x == 0 then .ok pfxFalse
+  else if w == 1 && x == 1 then .ok pfxTrue
   else if x ≥ 4096 && useHex then .ok (pfxU0x ++ natTextUpper 16 x.natAbs)
   else .ok (intText 10 x)
 
